@@ -98,6 +98,38 @@ def check_case(case):
         res.nontrivial = 1
         res.classes.add("moved")
         return res
+    if case.get("shared"):
+        # a second System built from the same component objects is edited (its 0 V / phase-limited source replaced by a live one of the same class,
+        # a leaf deleted); the first, never-edited system still has its dead rail
+        from ..sysmodel import build_shared_pair, observe, make_comp
+        from ..common import quiet_call
+        A, B, objs = build_shared_pair(spec)
+        srcc = copy.deepcopy(spec["comps"][0]) if False else __import__("copy").deepcopy(spec["comps"][0])
+        srcc["a"]["vo"] = 4.2
+        try:
+            quiet_call(B.solve)
+            B.change_comp(srcc["n"], comp=make_comp(srcc))
+            leaves = [c["n"] for c in spec["comps"] if c["k"] in ("PLoad", "ILoad", "RLoad")]
+            if leaves:
+                B.del_comp(leaves[-1])
+            quiet_call(B.solve)
+        except (RuntimeError, ValueError):
+            pass
+        try:
+            df, _ = quiet_call(A.solve)
+        except (RuntimeError, ValueError):
+            return res
+        except Exception as e:
+            res.v(("C04.shared-objects-solve-raises", type(e).__name__), str(e)[:200])
+            return res
+        obs = observe(df)
+        dd = resolve(spec)
+        for ph in (spec["phases"] or [""]):
+            phys.check_phase(res, spec, obs, ph, 25.0, WANT, dd)
+        res.viol = [(("C04.other-system-edited",) + sig, det) for sig, det in res.viol]
+        res.nontrivial = 1
+        res.classes.add("shared")
+        return res
     if case.get("oldfile"):
         # the system is saved, the file is relabelled as written by an OLDER release (which must load), reloaded, and the reloaded system analysed
         import json, os
@@ -169,6 +201,8 @@ def gen_cases(tier):
         for n in ((1, 2, 3) if tier == "quick" or pal != sd % 3 else (1, 2, 3, 4)):
             for f in mid.iter_forests(n):
                 yield dict(fam="zero", f=f, pal=pal, pol=1 if n % 2 else -1)
+                if n <= 2:
+                    yield dict(fam="zero", f=f, pal=pal, pol=1, shared=True)
                 spec = spec_from_forest(f, pal, 1, 0.37)
                 for c in spec["comps"]:
                     if c["k"] in PHASE_LIST_KINDS:
